@@ -149,22 +149,26 @@ Fixpoint strip_prefix (pre l : list str) : option (list str) :=
   | _ :: _, [] => None
   end.
 
-(* among the packages stored in directory d, the minimal length of their printed addresses *)
+(* among the packages stored in directory d: the shortest printed address wins,
+   equally short ones are ordered bytewise *)
 Definition candidates (b : bundle) (d : str) : list rpkg :=
   map fst (filter (fun e => str_eqb (snd e) d) (b_dirs b)).
-Definition min_len (l : list rpkg) : nat :=
-  fold_right (fun p acc => Nat.min (length (rpkg_string p)) acc) (match l with p :: _ => length (rpkg_string p) | [] => 0 end) l.
+Definition better (a b : str) : bool :=
+  Nat.ltb (length a) (length b) ||| (Nat.eqb (length a) (length b) &&& str_ltb a b).
+Definition best_key (first : str) (l : list rpkg) : str :=
+  fold_right (fun p acc => if better (rpkg_string p) acc then rpkg_string p else acc) first l.
 
-(* SourceForLocalPath: which directory, which sub-path, and the set of packages
-   among which Go's map iteration picks one (all minimal-length aliases of that directory) *)
+(* SourceForLocalPath: which directory, which sub-path, and the chosen package
+   (all packages of that directory printing as the winning text; more than one
+   only if two different package values print alike) *)
 Definition source_for_local_path (b : bundle) (p : str) : option (str * str * list rpkg) :=
   match strip_prefix (comps (b_root b)) (comps p) with
   | Some (d :: rest) =>
       let cs := candidates b d in
       match cs with
       | [] => None
-      | _ => let m := min_len cs in
-             Some (d, join_with slash rest, filter (fun c => Nat.eqb (length (rpkg_string c)) m) cs)
+      | c0 :: _ => let k := best_key (rpkg_string c0) cs in
+                   Some (d, join_with slash rest, filter (fun c => str_eqb (rpkg_string c) k) cs)
       end
   | _ => None
   end.
